@@ -33,6 +33,8 @@ ALPHABET = (
     + [("pushdb",), ("popdb",)]
     # amounts that are exactly zero (an affine unit makes zero an amount like any other), and a unit of another type
     + [("convert", "temperature", "degC", 0.0), ("convert", "length", "m", 0.0), ("convert", "length", "kg", 0.0), ("convert", "length", "kg", 2.0)]
+    # an id is any string - the empty one too (a system the user has not named yet)
+    + [("add", "", "m2"), ("remove", ""), ("setcur", "")]
     + [("remove", i) for i in ("a", "b", "z")]
     + [("setcur", i) for i in ("a", "b", None)]
     + [("template", t) for t in ("t1", "t2", "t3")]
@@ -320,7 +322,7 @@ class Explorer:
 
 def random_history(r, n):
     acts = []
-    ids = ["a", "b", "c"]
+    ids = ["a", "b", "c", ""]
     for _ in range(n):
         k = r.random()
         if k < 0.25:
